@@ -5,6 +5,10 @@
 //!   hsim run --property C15d|C13d|C02d|C19p --tier quick|thorough --seed N --jobs N --out FILE
 //!   hsim replay FILE [--trace]
 //!
+//! Environment: `VERIF_DIR` (default /verif) - replay files go to
+//! `$VERIF_DIR/replays/`; `HSIM_RUNS` overrides the number of cases of a batch
+//! (for sensitivity experiments).
+//!
 //! Process model: the single-threaded parent forks `--jobs` single-threaded
 //! workers; worker k runs case indices k, k+jobs, ... Every case is a pure
 //! function of (part, tier, case seed) - the case seed is derived from
@@ -588,7 +592,7 @@ fn cmd_run(args: &[String]) -> i32 {
         let (best, tries, reproduced_inproc) = if from_seed {
             (Vec::new(), 0, true)
         } else {
-            tape::minimise(tape.clone(), 600, |cand| {
+            tape::minimise(tape.clone(), 3000, |cand| {
             if min_started.elapsed() > Duration::from_secs(20) {
                 return None;
             }
